@@ -89,6 +89,7 @@ def pool_items():
     items += ["x = 1\n\x0c\ny = 2\n", "s = 'a\x0cb'\n", "# c \u2028 d\n", "s = 'q\x85r\x1cs'  # \x1d\n", "$(echo a\x0bb)\n", "with! a:\n    b \u2028 c\n", "\x0c\n", "k = \"\"\"\n\x0c\n\u2029\n\"\"\"\n", "g!(a \x1e b)\n"]
     # ... and statements that read the source by line number (macro text, `=` debug text, byte columns of non-ASCII lines, raw blocks)
     items += ["r = f!(a + b, [c, d])\n", "t = f'{q = }'\n", "é = $HOME + 'ü'\n", "with! a:\n    b\n\n    c\n", "x = f\"\"\"{a=\n}\"\"\"\n", "v = $(echo! é  è)\n", "w = f'{é!r = :>4}' 'ß'\n"]
+    items += [s for s in gen_xonsh.MATCH_MACROS[::3] if not s.endswith("pass\n")] + ["match!(a, b c d e)\n", "match!(a, @(x + y + z))\n", "match !(x, y)\n", "assert w, 'm'\n", "f!(a,)\n", "g!(x)\n"]
     return [s for s in items if s]
 
 
